@@ -226,10 +226,22 @@ def h_h2_to_h1(X, nfields):
     if body is not None and pname == "complete" and k == 0:
         trailers = X.choose("trailers", [None, [(b"x-trailer", b"t")]])
     method = dict(PSEUDO[pname]).get(b":method")
+    # an addon adds a cookie the documented way (headers.add with the conventional spelling): the upstream message is HTTP/1,
+    # so all cookie fields -- whatever the case of their names -- have to end up in one Cookie line
+    addon_cookie = None
+    if pname in PSEUDO_VALID_BASE and any(n == b"cookie" for n, _ in fields) and X.boolean("addon_adds_Cookie"):
+        addon_cookie = b"z=9"
 
     ctx = sansio.make_context(OPTS)
     ctx.client.alpn = b"h2"
     d = sansio.Driver(http.HttpLayer(ctx, HTTPMode.regular), ctx)
+
+    def on_hook(h):
+        if addon_cookie and h.name == "request":
+            h.args()[0].request.headers.add("Cookie", addon_cookie.decode())
+        return True
+
+    d.on_hook = on_hook
     d.start()
     cli = _mk_client_peer()
     cli.initiate_connection()
@@ -271,7 +283,9 @@ def h_h2_to_h1(X, nfields):
     exp_host = pd.get(b":authority") or next((v for n, v in fields if n.lower() == b"host"), None)
     X.check(hosts == [exp_host], "C06/h2-to-h1/host-differs-from-authority", f"{what}: Host fields {hosts}, :authority/host was {exp_host!r}")
     exp = [(n.lower(), v) for n, v in fields if n.lower() not in (b"host", b"cookie")]
-    cookies = [v for n, v in fields if n.lower() == b"cookie"]
+    cookies = [v for n, v in fields if n.lower() == b"cookie"] + ([addon_cookie] if addon_cookie else [])
+    if addon_cookie:
+        X.reach("addon-cookie")
     got_rest = [(n, v) for n, v in got if n not in (b"host", b"cookie")]
     if not any(n in (b"transfer-encoding", b"content-length") for n, _ in exp):
         # a translator may have to add HTTP/1 message framing for the body (that the framing is right is checked through the body)
@@ -434,8 +448,9 @@ def obligations(tier):
             encoded=["mitmproxy.net.http.validate:validate_headers"]),
         Symx("h2-to-h1", lambda X: h_h2_to_h1(X, n),
              bounds=f"{len(PSEUDO)} pseudo-header sets x <= {n} fields from a {len(FIELDS)}-entry alphabet-partition menu (<= 2 for the GET / explicit-port variants, <= 1 field when the "
-                    f"pseudo-header set is itself a malformed variant) x body/no body (x trailers for the plain block) x {len(H1_RESPONSES)} HTTP/1 answers",
-             encoded=ENCODED, must_reach=["forwarded", "rejected", "answered", "cookies-joined"], parallel_depth=3),
+                    f"pseudo-header set is itself a malformed variant) x body/no body (x trailers for the plain block) x "
+                    f"{{no addon, addon adds a `Cookie` field in the request hook (when the block has a cookie field)}} x {len(H1_RESPONSES)} HTTP/1 answers",
+             encoded=ENCODED, must_reach=["forwarded", "rejected", "answered", "cookies-joined", "addon-cookie"], parallel_depth=3),
         Symx("h1-to-h2", lambda X: h_h1_to_h2(X, n1),
              bounds=f"{len(H1_REQ_SHAPES)} HTTP/1 request shapes x <= {n1} fields from a {len(H1_LINES)}-entry menu x {len(H2_RESPONSES)} h2 answers (incl. trailers)",
              encoded=ENCODED, must_reach=["forwarded", "answered"], parallel_depth=3),
